@@ -140,8 +140,20 @@ func touches(pts [][2]int, nq [2]int) bool {
 	return false
 }
 
-var curveNames = []string{"circle", "bigarc", "quarter", "quad", "cubic", "cubic-s", "ellipse", "mixed", "mixed-open"}
+var curveNames = []string{"circle", "bigarc", "quarter", "quad", "cubic", "cubic-s", "ellipse", "mixed", "mixed-open", "cubic-2i-a", "cubic-2i-b", "cubic-2i-c"}
 var curveClosed = map[string]bool{"circle": true, "ellipse": true, "mixed": true}
+
+// curveTol: the tolerance rule of spec/Dash.tla (TolOf): 0.1 unit, for cubics with two inflection points 1.25 % of the
+// curve length if that is more.
+func curveTol(subs []Sub) int {
+	t := 10
+	for _, s := range subs {
+		if strings.HasPrefix(s.Shape, "cubic-2i-") {
+			t = max(t, (5*s.L+3)/4)
+		}
+	}
+	return t
+}
 
 func randPattern(r *rand.Rand, maxLen, maxVal int, zeros bool) []int {
 	n := r.Intn(maxLen + 1)
@@ -379,7 +391,7 @@ func (d Driver) traces(c *core.Ctx) {
 		if r.Intn(4) == 0 {
 			subs = append(subs, randSub(r, 60, 20))
 		}
-		s := &Scenario{Kind: "dash", Subs: subs, D: randPattern(r, 4, 6, true), Off: r.Intn(41) - 15, Q: 100, Tol: 10, Emb: cembs[r.Intn(len(cembs))]}
+		s := &Scenario{Kind: "dash", Subs: subs, D: randPattern(r, 4, 6, true), Off: r.Intn(41) - 15, Q: 100, Tol: curveTol(subs), Emb: cembs[r.Intn(len(cembs))]}
 		if !add(s) {
 			return
 		}
